@@ -35,7 +35,7 @@ replace github.com/filecoin-project/go-ds-versioning => $W/deps/go-ds-versioning
 replace github.com/hannahhoward/go-pubsub => $W/deps/go-pubsub
 replace github.com/bep/debounce => $W/deps/debounce
 EOT
-[ -x "$V/.build/xform" ] || (cd "$V/xform" && mkdir -p "$V/.build" && go build -o "$V/.build/xform" . ) || fail "build xform"
+[ -x "$V/.build/xform" ] && [ ! "$V/xform/main.go" -nt "$V/.build/xform" ] || (cd "$V/xform" && mkdir -p "$V/.build" && go build -o "$V/.build/xform" . ) || fail "build xform"
 (cd "$W/repo" && "$V/.build/xform" -dir "$W/repo" -roots "$W/repo,$W/deps" ./... \
    github.com/filecoin-project/go-statemachine/... github.com/filecoin-project/go-ds-versioning/... \
    github.com/hannahhoward/go-pubsub/... github.com/bep/debounce/... > "$W/xform.stats" 2> "$W/xform.err") || { cat "$W/xform.err" >&2; fail "xform"; }
